@@ -79,6 +79,7 @@ type Obligation struct {
 	LogLen int
 	Pos    token.Position
 	Text   string
+	Via    string
 	// results
 	Status  string // "unsat" (discharged), "sat", "unknown", "timeout", "error"
 	Solver  string
